@@ -36,7 +36,7 @@ ASSUMPTIONS = [
 ]
 SETTINGS: Dict[str, Dict[str, Any]] = {
     "quick": {"cases": 2000, "cli_cases": 48, "budget_s": 45, "minimums": {"corpus_runs": 100, "to_date_runs_with_negative_balances_allowed": 500, "accounts_checked": 8000, "nontrivial": 800, "negative_runs": 100, "cli_runs": 5, "histories_with_transfers_repeating_a_unique_id": 60, "runs_with_an_exchange_supplied_total_that_differs_from_amount_plus_fee": 150}},
-    "thorough": {"cases": 80000, "cli_cases": 150, "budget_s": 300, "minimums": {"corpus_runs": 100, "accounts_checked": 300000, "nontrivial": 30000, "negative_runs": 4000, "cli_runs": 100, "histories_with_transfers_repeating_a_unique_id": 4000, "runs_with_an_exchange_supplied_total_that_differs_from_amount_plus_fee": 6000}},
+    "thorough": {"cases": 80000, "cli_cases": 150, "budget_s": 300, "minimums": {"corpus_runs": 100, "accounts_checked": 180000, "nontrivial": 18000, "negative_runs": 2400, "cli_runs": 60, "histories_with_transfers_repeating_a_unique_id": 2400, "runs_with_an_exchange_supplied_total_that_differs_from_amount_plus_fee": 3600}},
 }
 PROFILES = [
     Profile(n_exchanges=2, n_holders=2, p_intra=0.35, p_self_transfer=0.1, max_events=20, min_events=5),
